@@ -1,0 +1,6 @@
+//go:build !verif
+
+package hsmsss
+
+// vgate is a verification gate point; an empty function without the `verif` build tag.
+func vgate(string) {}
